@@ -176,8 +176,17 @@ def invalidate_and_generation_rules(ctx, prog):
     else:
         ctx.fn(inv)
         from ..analysis import element_ops
-        eo = element_ops(prog, inv, lambda t: (t["callee"].get("method") == "clear" and "RegionalState" in callee_key(t["callee"])) or
-                         callee_key(t["callee"]).endswith("RegionalState::clear"))
+        def _is_clear(t, _b=[None]):
+            if (t["callee"].get("method") == "clear" and "RegionalState" in callee_key(t["callee"])) or callee_key(t["callee"]).endswith("RegionalState::clear"):
+                return True
+            # `clear()` written out: the regional slot's value is overwritten (store/swap) - in an invalidation pass that is the clearing
+            if t["callee"].get("method") in ("store", "swap") and "arc_swap" in callee_key(t["callee"]).lower() and t["args"]:
+                for bd_ in [inv] + prog.closures_of(inv):
+                    if any(tt is t for _bb, tt in bd_.calls()):
+                        _r, fs = op_access_path(bd_, t["args"][0])
+                        return bool(fs) and fs[-1].endswith("RegionalState::value")
+            return False
+        eo = element_ops(prog, inv, _is_clear)
         # `for_each(RegionalState::clear)` passes the function itself: the op is then the adaptor call
         fe = [(bb, t) for bb, t in inv.calls() if t["callee"].get("method") == "for_each" and "RegionalState::clear" in t["callee"].get("full", "")]
         ok = (bool(eo) and all(e["ok"] for e in eo)) or bool(fe)
